@@ -115,6 +115,17 @@ CLAIMED["C39"] = (
     COMMON_NOTE + "readConfigFile / readConfigFileOnly are opaque (they may change any heap); filepath.Join is an uninterpreted pure function.",
     "contract-based deductive verification (ghost tracking of call order, call-site obligations + SMT)", "6/C39")
 
+CLAIMED["C37"] = (
+    "Proof of the decision kernels of command location expansion: quote leaves strings without shell-special characters unchanged and quotes "
+    "every string with a word-splitting character — proved outside the recorded known-finding region (blank/tab/newline without |&;()<>, where "
+    "the real code does not quote; a canary obligation keeps that region honest); handleDir and fileDestination return the location at which "
+    "the output exists (out dir, ./out for a test's own binary, package-relative otherwise); checkAndReplaceSequence returns normally only if "
+    "the sequence does not have the wrong number of outputs, is not $(exe) of a non-binary or output-less rule and is not a tool at test time "
+    "(it panics otherwise, which the caller turns into an error). Kernel-only: the regex dispatch, dependency lookup and the per-path "
+    "join loop are not under contract.",
+    COMMON_NOTE + "Outputs()/OutDir() are assumed pure functions of the target; filepath.Join is uninterpreted.",
+    "contract-based deductive verification (own VC generator + SMT, known-finding region)", "6/C37")
+
 NOT_APPLICABLE = {
     "C05": "liveness / whole-run exit status under all schedules: no per-call contract expresses it (safety fragment is under C04)",
     "C30": "OS process groups, signals and wall-clock bounds; goroutines and select are outside the sequential contract model",
